@@ -468,14 +468,14 @@ func c14Hostile(r *rng, j *Journal, cfg *BalCfg) string {
 		return "txn-year0"
 	case 2, 3:
 		if as != "" && ex != "" {
-			iv := pick(r, []string{"daily", "weekly", "monthly", "quarterly", "once"})
+			iv := pick(r, []string{"daily", "weekly", "monthly", "quarterly"})
 			*j = append(*j, Dir{Kind: 'T', Date: "2020-02-01", Desc: "inverted accrual", Accrual: &Accrual{iv, "2020-06-01", "2020-01-01", as},
 				Bookings: []Booking{{as, ex, "12", "CHF"}}})
 			return "accrual-inverted-" + iv
 		}
 	case 4:
 		if as != "" && ex != "" {
-			*j = append(*j, Dir{Kind: 'T', Date: "2020-02-01", Desc: "zero accrual", Accrual: &Accrual{pick(r, []string{"monthly", "once"}), "0001-01-01", "0001-03-01", as},
+			*j = append(*j, Dir{Kind: 'T', Date: "2020-02-01", Desc: "zero accrual", Accrual: &Accrual{pick(r, []string{"monthly", "daily"}), "0001-01-01", "0001-03-01", as},
 				Bookings: []Booking{{as, ex, "12", "CHF"}}})
 			return "accrual-day0"
 		}
